@@ -5,7 +5,7 @@ schedules, sbatch failures, node kills and time-outs, dependency cycles; every i
 Coq monitors; Python oracles judge impl's trace and final state directly (harness/syscheck.py)."""
 from harness import core, syscheck
 
-MODES = {'sbatchfail': 3, 'timeout': 3, 'kill': 2, 'cyclic': 2, 'plain': 1, 'appendtimeout': 1}
+MODES = {'sbatchfail': 3, 'timeout': 3, 'kill': 2, 'cyclic': 2, 'plain': 1, 'appendtimeout': 1, 'suspend': 2}
 
 
 def run(chk):
